@@ -61,6 +61,7 @@ func evalC01(c *engine.Case) engine.Verdict {
 					v.Class("redefine-with-input-filter")
 				}
 			}
+			w.FreshSubtypes = true
 			_, rerr, rpanic, _, ro := w.RedefineCall(target, args)
 			o = ro
 			if rpanic != "" {
